@@ -1,6 +1,7 @@
 import CircusProofs.Core.ConvReap
 import CircusProofs.Core.ConvSurplus
 import CircusProofs.Core.ConvMulti
+import CircusProofs.Core.ConvMultiReap
 import CircusProofs.Props.C01Conv
 /-!
 # C01 — convergence, generalised
@@ -70,6 +71,16 @@ every firing moves the frame of the loop it resumes to the end.
   `numprocesses` running workers, the workers that were there kept in place (`Grow`); for one watcher this is
   `C01_converges_after_check` again;
 * `C01_multi_converged_stays` — further checks change neither the watchers nor the log.
+
+## A and C together: deaths before the check, several watchers
+
+Setting (`IdleK s`, `DatKZ s`): as in C, but the watchers also list workers that are dead in the kernel (zombies, any
+status), the kernel is still but for zombies, and no pid is listed twice (`PidsDisjoint`).
+* `C01_multi_arbiter_reaps_dead` — `Arbiter.reap_processes`: the pid → watcher map, the `waitpid(-1)` loop over every
+  zombie child (least pid first), `reap_process(pid, status)` of the watcher that lists it; exact log; afterwards every
+  watcher lists exactly its workers that run (`aliveWs`);
+* **`C01_multi_converges_after_deaths`** — `check` + exactly `Σ_w (numprocesses_w − running_w)` firings end idle with every
+  watcher at its `numprocesses` running workers, the workers that ran before kept.
 -/
 namespace Circus.Core
 
@@ -426,5 +437,71 @@ example : (run c01sM [.check]).ws.map (·.pids) = [[103], [100], [], [102]] ∧
     (run c01sM (.check :: List.replicate 6 .wake)).frames.length = 0 ∧
     (run c01sM (.check :: List.replicate 6 .wake)).sleepers.length = 0 ∧
     (run c01sM (.check :: List.replicate 6 .wake)).a.slot = none := by decide +kernel
+
+/-! ## A and C together -/
+
+/-- **`Arbiter.reap_processes` with several watchers listing dead workers**: in a kernel that is still but for
+    zombies, with every watcher registered, active, without hooks, and no pid listed twice, the `waitpid(-1)` loop
+    collects every zombie child of the daemon in ascending pid order; the log grows by exactly `arbReapObsK`: per
+    zombie its `waitpid` observation and — when a watcher lists it — the `reap` event of that watcher with the decoded
+    exit code; afterwards every watcher record is what it was with exactly the dead pids dropped (`aliveWs`); the
+    kernel is still, pid counter and clock unchanged, every process that was not a zombie untouched, every zombie
+    gone; nothing of the control state is touched. -/
+theorem C01_multi_arbiter_reaps_dead (s : State) (hd : DatKZ s) (hwat : s.a.watchers = s.ws.map (·.uid)) :
+    ∃ K O, arbReapProcesses s = ((), { s with k := K, objs := O, ws := aliveWs s,
+                                              log := s.log ++ arbReapObsK s.a s.ws s.k.statusOf s.k.zombies }) ∧
+      K.Still ∧ K.nextPid = s.k.nextPid ∧ K.now = s.k.now ∧ (∀ q, q ∉ s.k.zombies → K.find q = s.k.find q) ∧
+      (∀ z ∈ s.k.zombies, ∃ p, K.find z = some p ∧ p.st = .gone) :=
+  arbReapProcesses_zombies_K s hd hwat
+
+/-- **convergence after deaths, several watchers**: from an idle state with any number (≥ 1) of registered active
+    watchers that list running workers and dead ones (no pid twice), none with more running workers than its
+    `numprocesses`, the periodic check followed by exactly `Σ_w (numprocesses_w − running_w)` timer firings ends idle —
+    nothing in flight, the slot free, the kernel still (no zombie) — with every watcher active and listing exactly its
+    `numprocesses` pids, all running: its workers that ran before, in their order, followed by fresh ones (`Grow` from
+    `aliveWs`). -/
+theorem C01_multi_converges_after_deaths (s : State) (hi : IdleK s) (hd : DatKZ s)
+    (hle : ∀ w ∈ aliveWs s, w.pids.length ≤ w.np.toNat) (hne : s.ws ≠ []) :
+    let s' := run s (.check :: List.replicate ((aliveWs s).map missing).sum .wake)
+    s'.frames = [] ∧ s'.sleepers = [] ∧ s'.tops = [] ∧ s'.ready = [] ∧ s'.a.slot = none ∧ s'.blocked = false ∧ s'.k.Still ∧
+    (∀ w ∈ s'.ws, w.status = .active ∧ w.pids.length = w.np.toNat ∧ ∀ pid ∈ w.pids, ∃ p, s'.k.find pid = some p ∧ p.st = .run) ∧
+    Grow (aliveWs s) s'.ws := by
+  intro s'
+  obtain ⟨h1, ⟨hb, hk, _, hall⟩, h3, h4⟩ := check_converges_deaths_K s hi hd hle hne
+  exact ⟨h1.frames, h1.sleepers, h1.tops, h1.ready, h1.slot, hb, hk,
+    fun w hw => ⟨(hall w hw).1.status, h3 w hw, (hall w hw).2⟩, h4⟩
+
+/-! ### non-vacuity: the four watchers above, converged; then one worker of `a` exits, the worker of `b` is killed from
+    outside, one of `d` exits with code 1 -/
+
+def c01sMD : State := run c01sM (.check :: List.replicate 6 .wake ++ [.die 103 0, .xkill 100 9, .die 105 256])
+
+theorem c01sMD_idle : IdleK c01sMD :=
+  ⟨by decide +kernel, by decide +kernel, by decide +kernel, by decide +kernel, by decide +kernel, by decide +kernel,
+   by decide +kernel, by decide +kernel, by decide +kernel⟩
+
+theorem c01sMD_datKZ : DatKZ c01sMD :=
+  DatKZ.of_dec c01sMD (by decide +kernel)
+    ⟨by decide +kernel, by decide +kernel, by decide +kernel, by decide +kernel, by decide +kernel, by decide +kernel,
+     by decide +kernel⟩
+    (by decide +kernel) (by decide +kernel) (by decide +kernel)
+
+example : (aliveWs c01sMD).map (·.pids) = [[108], [], [], [102, 106]] ∧ ((aliveWs c01sMD).map missing).sum = 3 ∧
+    c01sMD.k.zombies = [100, 103, 105] := by decide +kernel
+
+example : ∀ w ∈ (run c01sMD (.check :: List.replicate 3 .wake)).ws, w.pids.length = w.np.toNat := by
+  have h := C01_multi_converges_after_deaths c01sMD c01sMD_idle c01sMD_datKZ (by decide +kernel) (by decide +kernel)
+  have e : ((aliveWs c01sMD).map missing).sum = 3 := by decide +kernel
+  rw [e] at h
+  exact fun w hw => ((h.2.2.2.2.2.2.2.1) w hw).2.1
+
+-- the same run evaluated: three reaps (each announced by the watcher that listed the worker), three spawns, three firings
+example : ((run c01sMD [.check]).log.drop c01sMD.log.length).map showObs =
+      ["o reap 100 9", "o ev 98 reap 100 -9", "o reap 103 0", "o ev 97 reap 103 0", "o reap 105 256", "o ev 100 reap 105 1",
+       "o spawn 109 98 1", "o ev 98 spawn 109 -", "o spawn 111 100 2", "o ev 100 spawn 111 -", "o spawn 112 97 1",
+       "o ev 97 spawn 112 -"] ∧
+    (run c01sMD (.check :: List.replicate 3 .wake)).ws.map (·.pids) = [[108, 112], [109], [], [102, 106, 111]] ∧
+    (run c01sMD (.check :: List.replicate 3 .wake)).frames.length = 0 ∧
+    (run c01sMD (.check :: List.replicate 2 .wake)).frames.length ≠ 0 := by decide +kernel
 
 end Circus.Core
